@@ -28,6 +28,7 @@ K_F12 = "C13/default-spelling/falsy-invalid-default"
 K_PEP604 = "C13/pep604/plain-type-union-ignored"
 K_TUPLE = "C13/tuple/single-class-item"
 K_FUTURE = "C13/future-annotations/long-annotation-ignored"
+K_MUTABLE = "C13/default-spelling/mutable-default-rejected-by-equals"
 
 
 # ----------------------------------------------------------------------------- generation
@@ -294,8 +295,9 @@ def optional_lattice(ctx, idx0, tier):
                         if opt:
                             a_decls.append(mk(True, shape, False))
                     if n == 2 and p is None and fs[0]["t"] != "ref":
-                        oforms = P.forms(fs[1], "orright", rnd)
-                        a_decls.append(mk(True, ("or", fmem[0], oforms[j % len(oforms)]), False))
+                        for right in P.forms(fs[1], "orright", rnd):       # Field | <every spelling of the right operand>
+                            a_decls.append(mk(True, ("or", fmem[0], right), False))
+                            a_decls.append(mk(False, ("or", fmem[0], right), False))
                 a_decls = [d for d in a_decls if union_kept(d["ty"], ctx)]
                 if len(a_decls) < 2:
                     continue
@@ -337,6 +339,40 @@ def default_lattice(ctx, idx0, tier):
             variants = [{"decls": [forms[0]], "changed": None}] + [{"decls": [x], "changed": 0} for x in forms[1:]]
             cases.append({"idx": idx0 + len(cases), "members": [m], "variants": _dedup_variants(["a"], variants),
                           "lattice": "default"})
+    return cases
+
+
+MUTABLE_LATTICE = [
+    ({"t": "seqeach", "k": "list", "item": {"t": "num", "k": "Integer", "s": "Any"}, "sz": [None, None], "uniq": False},
+     [[1, 2], [], ["x"]]),
+    ({"t": "seqany", "k": "list", "sz": [None, None], "uniq": False}, [[1, "a"], []]),
+    ({"t": "mapany", "sz": [None, None]}, [{"a": 1}, {}]),
+    ({"t": "mapkv", "kf": {"t": "str"}, "vf": {"t": "num", "k": "Integer", "s": "Any"}, "sz": [None, None]},
+     [{"a": 1}, {}]),
+    ({"t": "set", "imm": False, "item": {"t": "str"}, "sz": [None, None]}, [{"a"}]),
+]
+
+
+def mutable_default_lattice(ctx, idx0, tier):
+    """list / dict / set defaults on collection fields, written with `=` and with default= over every spelling."""
+    rnd = random.Random(99)
+    cases = []
+    for f, dvs in MUTABLE_LATTICE:
+        for dv in dvs:
+            d = E.reify(dv)
+            decls = []
+            for s in P.forms(f, "general", rnd):
+                if union_kept(s, ctx):
+                    decls.append({"annot": True, "ty": s, "eq": d, "kw": None, "opt": False})
+                    if s[0] in ("inst", "ctor1", "ctorN"):
+                        decls.append({"annot": True, "ty": s, "eq": None, "kw": d, "opt": False})
+            for s in P.forms(f, "fieldy", rnd):
+                if s[0] in ("inst", "ctor1", "ctorN"):
+                    decls.append({"annot": False, "ty": s, "eq": None, "kw": d, "opt": False})
+            m = {"name": "a", "f": dict(f), "opt": False, "default": d}
+            variants = [{"decls": [decls[0]], "changed": None}] + [{"decls": [x], "changed": 0} for x in decls[1:]]
+            cases.append({"idx": idx0 + len(cases), "members": [m], "variants": _dedup_variants(["a"], variants),
+                          "lattice": "mutable-default"})
     return cases
 
 
@@ -472,7 +508,7 @@ def observe_class(obj, names, candidates, ctx):
     from typedpy import Serializer, Deserializer
     n_deser = 0
     if isinstance(obj, BaseException):
-        return {"def": E.exn_name(obj)}
+        return {"def": E.exn_name(obj), "mutable_msg": "mutable value as default" in str(obj)}
     fields = obj.get_all_fields_by_name()
     out = {"def": "ok", "fields": sorted(fields.keys()), "required": sorted(set(getattr(obj, "_required", []))),
            "objs": {}, "defaults": {}, "beh": []}
@@ -637,6 +673,14 @@ def attribute(aspect, detail, d_base, d_var, o_base, o_var, name):
         pair = sorted([(d_base, o_base), (d_var, o_var)], key=lambda p: p[1]["def"] != "ok")
         (acc, oa), (rej, orj) = pair
         dflt = acc["kw"]
+        # a list / dict / set default: refused with ValueError("... mutable value as default ...") on SOME paths only
+        # (`=` next to a Field instance or a typing generic; after validation for the latter), accepted on the others
+        # (default=, `=` next to a Field class)
+        vals = [x for x in (d_base["eq"], d_base["kw"], d_var["eq"], d_var["kw"]) if x is not None]
+        if vals and all(x == vals[0] for x in vals) and vals[0][0] in ("list", "dict", "set") and \
+                any(d["eq"] is not None and o["def"] == "ValueError" and o.get("mutable_msg")
+                    for d, o in ((d_base, o_base), (d_var, o_var))):
+            return K_MUTABLE
         if (oa["def"] == "ok" and orj["def"] in ("TypeError", "ValueError") and dflt is not None and falsy(dflt)
                 and rej["eq"] is not None and rej["eq"] == dflt):
             return K_F12
@@ -986,7 +1030,7 @@ def run_correspondence(rep, spell_cases, decl_cases, ctx, workdir, fut_cases=())
 
 def run(rep, tier):
     rnd = random.Random(core.seed() * 1000003 + 13)
-    n_classes = 120 if tier == "quick" else 900
+    n_classes = 160 if tier == "quick" else 900
     max_depth = 2 if tier == "quick" else 3
     per_field = 4 if tier == "quick" else 6
     import time
@@ -1003,6 +1047,7 @@ def run(rep, tier):
         cases = [gen_class_case(rnd, i, ctx, max_depth) for i in range(n_classes)]
         cases += optional_lattice(ctx, len(cases), tier)
         cases += default_lattice(ctx, len(cases), tier)
+        cases += mutable_default_lattice(ctx, len(cases), tier)
         cases += future_length_lattice(ctx, len(cases), tier)
         batch = 35
         t1 = time.time()
